@@ -158,7 +158,10 @@ def run_api(sh, ctx):
 				for chunk in (1, 7, 1000, None):
 					if n > 100 and chunk == 1 and N not in (10,):
 						continue
-					res = query(db, qs, QueryParams(chunksize=chunk, report_closest=N))
+					strict = (N == 10 and chunk in (7, None))
+					res = query(db, qs, QueryParams(chunksize=chunk, report_closest=N, classify_strict=strict))
+					if strict:
+						ctx.count('strict_mode_queries')
 					for qi, item in enumerate(res.items):
 						lst = [(m.genome.key, float(m.distance), None if m.matched_taxon is None else m.matched_taxon.key) for m in item.closest_genomes]
 						desc = dict(n=n, N=N, chunk=chunk, threads=sh['threads'], dispatch=sh['dispatch'], world_seed_index=wi, query=qi, sig_order=order[:30],
@@ -197,9 +200,10 @@ def run_cli(sh, ctx):
 		d = w.write_db(ctx.workdir / f'c{wi}', sig_order=order)
 		qs = w.write_query_sigs(ctx.workdir / f'c{wi}_q.gs')
 		outs = {}
+		strict = wi % 2 == 1
 		for fmt in ('csv', 'json'):
 			o = ctx.workdir / f'c{wi}.{fmt}'
-			code, so, se, exc = clidrv.run_inproc(['-d', d, 'query', '-f', fmt, '-o', o, '--no-progress', '-s', qs] + (['-c', rng.choice([1, 4, 16])] if rng.random() < 0.5 else []))
+			code, so, se, exc = clidrv.run_inproc(['-d', d, 'query', '-f', fmt, '-o', o, '--no-progress', '-s', qs] + (['--strict'] if strict else []) + (['-c', rng.choice([1, 4, 16])] if rng.random() < 0.5 else []))
 			ctx.count('cli_commands')
 			if code != 0:
 				ctx.violation('cli-fails', f'gambit query -f {fmt} exited {code}: {se[-200:]} {exc}', dict(world=w.describe()))
@@ -229,7 +233,7 @@ def run_shard(sh, ctx):
 
 def finalize(merged, tier, seed, inconclusive):
 	c = merged['counters']
-	for n in ['rows_with_ties', 'rows_with_tied_minimum', 'n_regime:<=16', 'n_regime:17-64', 'n_regime:>64', 'csv_json_pairs']:
+	for n in ['strict_mode_queries', 'rows_with_ties', 'rows_with_tied_minimum', 'n_regime:<=16', 'n_regime:17-64', 'n_regime:>64', 'csv_json_pairs']:
 		if c.get(n, 0) == 0:
 			inconclusive.append(f'class never observed: {n}')
 	dg = merged['notes'].get('digest_lists', {})
